@@ -42,7 +42,58 @@ def _dedupe(seq):
     return out
 
 
+def _dr_ignored(cs):
+    """a recorded file that a new pattern covers is still on disk; a new file with the same content appears and the
+    run detects renames: the ignored path is neither missing nor the former name of anything"""
+    rng = cs.rng
+    d = cs.dir()
+    root = os.path.join(d, world.root_name(rng))
+    ign_name, pat = rng.choice([("a.tmp", "*.tmp"), ("render cache.bak", "*.bak"), ("scratch", "scratch"), ("old/a.tmp", "*.tmp")])
+    data = b"ignored-later" + rng.randbytes(4)
+    files = {ign_name: data, "k.txt": b"k" + rng.randbytes(3), "sub/s.bin": b"s" + rng.randbytes(3)}
+    for rel, b in files.items():
+        os.makedirs(os.path.dirname(os.path.join(root, rel)), exist_ok=True)
+        with open(os.path.join(root, rel), "wb") as f:
+            f.write(b)
+    fm = world.gen_formats(rng)[:2]
+    r = drive.run("create", [root] + world.fmt_args(fm))
+    if r.exit != 0:
+        cs.skip("prior-seal-failed")
+        return
+    new_rel = rng.choice(["sub/b.mov", "copy of it.mov"])
+    with open(os.path.join(root, new_rel), "wb") as f:
+        f.write(data)
+    steps = ["create => 0", f"copy {ign_name!r} -> {new_rel!r}"]
+    r, new, before, after = hist.create(root, fm, ["-dr", "-i", pat])
+    steps.append(f"create -dr -i {pat} => {r.exit}")
+    cs.evaluated()
+    cs.count("dr_runs_with_recorded_file_ignored_now")
+    cs.cls("dr-ignored", pat, r.exit)
+    ctx = {"steps": steps, "pattern": pat, "ignored": ign_name}
+    if r.internal:
+        cs.violation(classify.internal_key(r), classify.internal_sig(r, "create-dr"), {**ctx, **r.brief()})
+        return
+    if r.exit != 0:
+        cs.violation("create-nonzero-on-unchanged-tree", {"kind": "exit", "cmd": "create-dr", "exit": r.exit, "scenario": "dr-ignored"}, {**ctx, "out": r.text[-400:]})
+        return
+    names = [n for n in new.get(".", []) if n.endswith(".mhl")]
+    if len(names) != 1:
+        return
+    m = xmlread.read_manifest_bytes(after["."][names[0]])
+    for h in m["hashes"]:
+        if h["path"] == ign_name or h.get("previousPath") == ign_name:
+            cs.violation(
+                "ignored-path-recorded",
+                {"kind": "recorded", "as": "path" if h["path"] == ign_name else "previous-path", "scenario": "dr-ignored"},
+                {**ctx, "record": h["path"], "previousPath": h.get("previousPath")},
+            )
+    if re.search(r"renamed \w+ was detected: from " + re.escape(ign_name) + " to ", r.text):
+        cs.violation("ignored-path-reported", {"kind": "reported", "as": "renamed-from", "scenario": "dr-ignored"}, {**ctx, "out": r.text[-400:]})
+
+
 def run_case(cs):
+    if cs.rng.random() < 0.04:
+        return _dr_ignored(cs)
     rng = cs.rng
     tree = world.gen_tree(rng, max_files=rng.choice([3, 7]), max_dirs=rng.choice([1, 3, 5]), classes=["plain", "plain", "space", "uni"])
     dirs = [""] + [k for k, v in tree.items() if v is None]
